@@ -15,7 +15,7 @@ from simkit.tape import digest_of
 from simkit import vclock
 
 ID = "C13"
-RUNS = {"quick": 30_000, "thorough": 1_000_000}
+RUNS = {"quick": 70_000, "thorough": 1_000_000}
 MAX_BATCH = 800
 SIM_TIME_UNIT = "virtual milliseconds (1 per scheduler step)"
 RULE = (
